@@ -1,0 +1,14 @@
+//go:build verif
+
+// Machine-checked contracts for package parser (read by /verif/govc; comments only).
+
+package parser
+
+//@ func (*Parser).ParseVCLOrSnippet [C01]
+//@   requires p != nil
+//@   ensures [tree-or-error C01] err == nil ==> result != nil
+//@   assigns heap
+
+//@ func New [C01]
+//@   ensures [non-nil C01] result != nil && fresh(result)
+//@   assigns heap
